@@ -166,11 +166,13 @@ func vkErrOf(kind string) error {
 		return vkTimeout{}
 	case "syscall":
 		return vkErrSyscall
-	case "syscall:EINTR", "syscall:EMFILE", "syscall:ENFILE", "syscall:ENOBUFS", "syscall:EIO", "syscall:ENODEV", "syscall:ENETDOWN":
+	case "syscall:EINTR", "syscall:EMFILE", "syscall:ENFILE", "syscall:ENOBUFS", "syscall:EIO", "syscall:ENODEV", "syscall:ENETDOWN",
+		"syscall:ENETUNREACH", "syscall:EADDRNOTAVAIL", "syscall:ENOMEM", "syscall:EMSGSIZE", "syscall:EPERM", "syscall:EACCES":
 		// in the shape a socket read really fails with (x/net/ipv6 wraps the system call error in a *net.OpError):
 		// for EINTR, EMFILE and ENFILE the error reports Temporary() although it is not a timeout
 		errno := map[string]syscall.Errno{"EINTR": syscall.EINTR, "EMFILE": syscall.EMFILE, "ENFILE": syscall.ENFILE, "ENOBUFS": syscall.ENOBUFS,
-			"EIO": syscall.EIO, "ENODEV": syscall.ENODEV, "ENETDOWN": syscall.ENETDOWN}[strings.TrimPrefix(kind, "syscall:")]
+			"EIO": syscall.EIO, "ENODEV": syscall.ENODEV, "ENETDOWN": syscall.ENETDOWN, "ENETUNREACH": syscall.ENETUNREACH, "EADDRNOTAVAIL": syscall.EADDRNOTAVAIL,
+			"ENOMEM": syscall.ENOMEM, "EMSGSIZE": syscall.EMSGSIZE, "EPERM": syscall.EPERM, "EACCES": syscall.EACCES}[strings.TrimPrefix(kind, "syscall:")]
 		return &net.OpError{Op: "read", Net: "ip6:ipv6-icmp", Err: os.NewSyscallError("recvmsg", errno)}
 	case "perm":
 		return vkErrPermission
